@@ -155,7 +155,7 @@ def assertion_inputs(B, out, perc_of_valuation):
 def run_task(task):
     from engine import oracles
     oracles.install()
-    oracles.LIST_ORDER = "canonical"
+    oracles.LIST_ORDER = task["params"].get("order", "canonical")
     net = symnet.family(task["family"])
     mode = task["params"]["mode"]
     selftest = task["params"].get("selftest")
@@ -211,7 +211,7 @@ def tasks(tier, seed, selftest=False):
     q = tier == "quick"
 
     def add(fam, params, box, cube_k=0, nbits=0):
-        base = {"prop": PROP, "family": fam, "label": f"{fam}/{params['mode']}/{params.get('strat', '')}", "timebox": box, "seed": seed,
+        base = {"prop": PROP, "family": fam, "label": f"{fam}/{params['mode']}/{params.get('strat', '')}" + ("/" + params["order"] if params.get("order") else ""), "timebox": box, "seed": seed,
                 "params": dict(params, selftest=selftest)}
         if cube_k:
             for cube in common.cubes(nbits, cube_k):
@@ -230,6 +230,11 @@ def tasks(tier, seed, selftest=False):
     # a nested component (motif-avoidant attractor at an inner node of its own diagram) next to a switch: the shape on
     # which attaching component sub-diagrams has to propagate "no motif-avoidant attractor" node by node
     add("P:NEST4+SW2", {"mode": "union", "strat": "scc", "na": 4}, 60 if q else 1200)
+    # two components with nested blocks each (four blocks at the root of the union, two of them non-minimal): block
+    # expansion (build) has to pick a minimal one whatever the order in which the motifs are discovered
+    for fam in ("P:NB3+NB3r", "P:NB3r+NB3") if q else ("P:NB3+NB3r", "P:NB3r+NB3", "P:NB3+NB3", "P:NB3r+NB3r"):
+        add(fam, {"mode": "union", "strat": "build", "na": 3}, 30 if q else 900)
+        add(fam, {"mode": "union", "strat": "build", "na": 3, "order": "reversed"}, 30 if q else 900)
     add("S1C2", {"mode": "inputs", "srcs": [0]}, 60 if q else 1800)
     add("S2C2", {"mode": "inputs", "srcs": [0, 1]}, 40 if q else 1800)
     if not q:
